@@ -214,6 +214,7 @@ impl Subj {
             "iter_clone_a": ha.into_iter().map(unword).collect::<Vec<_>>(),
             "iter_clone_b": hb.into_iter().map(unword).collect::<Vec<_>>(),
             "used": used,
+            "cap": heap.iter().map(|p| p.1).sum::<usize>(),
             "pairs_ok": heap.iter().all(|(u, c)| u <= c),
         })
     }
@@ -354,6 +355,41 @@ pub fn replay_edge(edge: &Value, prop: &str, rep: &mut Report) {
                 (None, Ok(o)) if kind != "stride" => {
                     if o["used"] != exp["used"] {
                         why.push("cost".into())
+                    }
+                    // a sequence that never left the documented shape occupies no heap at all: no capacity
+                    // either (capacity retained by an earlier clear is legitimate, so no clear in the path)
+                    let cleared = path.iter().any(|o| matches!(o["op"].as_str(), Some("clear") | Some("clone_from")));
+                    if kind == "opt" && exp["used"] == json!(0) && !cleared && o["cap"] != json!(0) {
+                        why.push("capacity-for-compressible-sequence".into())
+                    }
+                }
+                _ => judged = false,
+            }
+        }
+        "C18" => {
+            // heap_size of index containers: used <= capacity, at least the documented bytes, never
+            // decreasing on push / extend
+            match (&panicked, &obs) {
+                (None, Ok(o)) if kind != "stride" => {
+                    if o["pairs_ok"] != json!(true) {
+                        why.push("used-exceeds-capacity".into())
+                    }
+                    if o["used"].as_i64() < exp["used"].as_i64() {
+                        why.push("used-below-stored".into())
+                    }
+                    if matches!(path.last().and_then(|o| o["op"].as_str()), Some("push") | Some("extend")) && path.len() >= 1 {
+                        let mut prev = Subj::new(kind);
+                        let mut ok = true;
+                        for op in &path[..path.len() - 1] {
+                            ok &= apply(&mut prev, op).is_ok();
+                        }
+                        if ok {
+                            if let Ok(po) = guarded(|| prev.observe()) {
+                                if o["used"].as_i64() < po["used"].as_i64() {
+                                    why.push("used-decreased-on-push".into())
+                                }
+                            }
+                        }
                     }
                 }
                 _ => judged = false,
